@@ -191,6 +191,8 @@ func main() {
 		cmdRandom(os.Args[2:])
 	case "crash":
 		cmdCrash(os.Args[2:])
+	case "tamper":
+		cmdTamper(os.Args[2:])
 	default:
 		fatal(2, "unknown subcommand")
 	}
